@@ -12,6 +12,7 @@ import (
 
 	v1 "github.com/go-json-experiment/json/v1"
 
+	"verif/ref"
 	"verif/run"
 )
 
@@ -46,13 +47,22 @@ func short(x any) string { return run.Trunc(fmt.Sprintf("%#v", x), 700) }
 
 // compareMarshal checks one marshal-like API result pair.  sub is the violation kind for
 // differing bytes; a disagreement in failure is reported as marshal-error-differs.
-func compareMarshal(w *run.W, api string, t reflect.Type, val any, out1, out2 []byte, o1, o2 outcome) {
+// noHTML tells that the call ran with HTML escaping switched off (Encoder.SetEscapeHTML(false)).
+func compareMarshal(w *run.W, api string, t reflect.Type, val any, out1, out2 []byte, o1, o2 outcome, noHTML bool) {
 	w.Eval(1)
 	if o1.failed() != o2.failed() {
 		tally(w, api, o1, o2)
 		side, o := whichFails(o1, o2)
-		sig := map[string]string{"api": api, "fails": side}
-		errAttrs(sig, o)
+		var sig map[string]string
+		if cause := marshalErrorCause(side, o, val); cause != causeUnclassified {
+			sig = map[string]string{"cause": cause, "outcome": side + "-fails"}
+			if side == "std" {
+				sig["outcome"] = "classic-fails"
+			}
+		} else {
+			sig = map[string]string{"api": api, "fails": side, "cause": causeUnclassified}
+			errAttrs(sig, o)
+		}
 		violate(w, "marshal-error-differs", sig, "%s of %v\n value=%s\n classic: %v %q\n v1:      %v %q", api, t, short(val), o1, out1, o2, out2)
 		return
 	}
@@ -67,13 +77,25 @@ func compareMarshal(w *run.W, api string, t reflect.Type, val any, out1, out2 []
 		return
 	}
 	w.Count(api+"_bytes_differ", 1)
-	sig := map[string]string{"api": api}
-	bytesDiffSig(sig, t, out1, out2)
 	sub := "marshal-bytes-differ"
 	if api == "Encoder" {
 		sub = "encoder-differs"
 	}
-	violate(w, sub, sig, "%s of %v\n value=%s\n classic: %q\n v1:      %q", api, t, short(val), out1, out2)
+	causes, rest := marshalBytesCauses(out1, out2, noHTML, val)
+	for _, cause := range causes {
+		var sig map[string]string
+		if cause != causeUnclassified {
+			sig = map[string]string{"cause": cause}
+		} else {
+			// describe the first difference that remains after the recorded spellings are peeled off
+			sig = map[string]string{"api": api, "cause": causeUnclassified}
+			if noHTML {
+				sig["escape_html"] = "off"
+			}
+			bytesDiffSig(sig, t, rest, out2)
+		}
+		violate(w, sub, sig, "%s of %v\n value=%s\n classic: %q\n v1:      %q", api, t, short(val), out1, out2)
+	}
 }
 
 var indentPairs = [][2]string{{"", " "}, {"", "\t"}, {">", "  "}, {" ", ""}, {"", ""}, {"p", "i"}, {"\t", " \t"}, {"\n", "x"}}
@@ -96,31 +118,50 @@ func marshalBoth(w *run.W, tt [2]reflect.Type, r *rand.Rand, v0, v1v reflect.Val
 	var out1, out2 []byte
 	o1 := guard(func() (err error) { out1, err = stdjson.Marshal(a0); return })
 	o2 := guard(func() (err error) { out2, err = v1.Marshal(a1); return })
-	compareMarshal(w, "Marshal", tt[0], a0, out1, out2, o1, o2)
+	compareMarshal(w, "Marshal", tt[0], a0, out1, out2, o1, o2, false)
 
+	// Indentation that is not JSON whitespace makes the output unparseable, so a disagreement
+	// there cannot be classified (nor compared modulo the order of equal names).  Such variants
+	// are compared only when the plain Marshal outputs are byte-equal; otherwise the
+	// disagreement has just been reported (or excused) for Marshal itself.
+	plainEqual := o1.failed() || o2.failed() || bytes.Equal(out1, out2)
+	if n := ref.Parse(out1, permissive); plainEqual && n != nil && ref.HasDuplicate(n) {
+		plainEqual = false // equal names: their order is unspecified and may change from call to call
+	}
+	jsonIndent := func(ip [2]string) bool { return isBlank(ip[0]) && isBlank(ip[1]) }
 	switch r.IntN(3) {
 	case 0:
 		ip := indentPairs[r.IntN(len(indentPairs))]
+		if !plainEqual && !jsonIndent(ip) {
+			w.Count("skipped_nonjson_indent_after_marshal_difference", 1)
+			break
+		}
 		o1 = guard(func() (err error) { out1, err = stdjson.MarshalIndent(a0, ip[0], ip[1]); return })
 		o2 = guard(func() (err error) { out2, err = v1.MarshalIndent(a1, ip[0], ip[1]); return })
-		compareMarshal(w, "MarshalIndent", tt[0], a0, out1, out2, o1, o2)
+		compareMarshal(w, "MarshalIndent", tt[0], a0, out1, out2, o1, o2, false)
 	case 1:
 		var b1, b2 bytes.Buffer
 		e1, e2 := stdjson.NewEncoder(&b1), v1.NewEncoder(&b2)
-		if r.IntN(2) == 0 {
+		noHTML := r.IntN(2) == 0
+		if noHTML {
 			e1.SetEscapeHTML(false)
 			e2.SetEscapeHTML(false)
 		}
 		if r.IntN(3) == 0 {
 			ip := indentPairs[r.IntN(len(indentPairs))]
+			if !plainEqual && !jsonIndent(ip) {
+				w.Count("skipped_nonjson_indent_after_marshal_difference", 1)
+				break
+			}
 			e1.SetIndent(ip[0], ip[1])
 			e2.SetIndent(ip[0], ip[1])
 		}
 		n := 1 + r.IntN(2)
 		for i := 0; i < n; i++ {
+			n1, n2 := b1.Len(), b2.Len() // equal: everything written so far was byte-equal
 			o1 = guard(func() error { return e1.Encode(a0) })
 			o2 = guard(func() error { return e2.Encode(a1) })
-			compareMarshal(w, "Encoder", tt[0], a0, b1.Bytes(), b2.Bytes(), o1, o2)
+			compareMarshal(w, "Encoder", tt[0], a0, b1.Bytes()[n1:], b2.Bytes()[n2:], o1, o2, noHTML)
 			if o1.failed() || o2.failed() || !bytes.Equal(b1.Bytes(), b2.Bytes()) {
 				break
 			}
@@ -128,7 +169,52 @@ func marshalBoth(w *run.W, tt [2]reflect.Type, r *rand.Rand, v0, v1v reflect.Val
 	}
 }
 
+// classicCannotDecodeKey reports whether the type graph of t contains a map whose key type
+// the classic package refuses for unmarshaling whatever the input object holds: classic
+// accepts string and integer kinds and key types K for which *K implements
+// encoding.TextUnmarshaler.  A pointer key type such as *PTM (both text methods on the
+// pointer receiver) can be marshaled by classic but "cannot unmarshal object into Go value
+// of type map[*PTM]V" (former F9).  Such a type is not expressible in both packages for
+// decoding (DESIGN §4 C09 "Domain discipline": key kinds are limited to those classic
+// supports in both directions), so it only takes part in marshal rounds.
+func classicCannotDecodeKey(t reflect.Type, seen map[reflect.Type]bool) bool {
+	if seen[t] {
+		return false
+	}
+	seen[t] = true
+	switch t.Kind() {
+	case reflect.Map:
+		k := t.Key()
+		switch k.Kind() {
+		case reflect.String, reflect.Int, reflect.Int8, reflect.Int16, reflect.Int32, reflect.Int64,
+			reflect.Uint, reflect.Uint8, reflect.Uint16, reflect.Uint32, reflect.Uint64, reflect.Uintptr:
+		default:
+			if !reflect.PointerTo(k).Implements(textUnmarshalT) {
+				return true
+			}
+		}
+		return classicCannotDecodeKey(t.Elem(), seen)
+	case reflect.Pointer, reflect.Slice, reflect.Array:
+		return classicCannotDecodeKey(t.Elem(), seen)
+	case reflect.Struct:
+		if hasMethods(t) || t == timeT {
+			return false
+		}
+		for i := 0; i < t.NumField(); i++ {
+			if classicCannotDecodeKey(t.Field(i).Type, seen) {
+				return true
+			}
+		}
+	}
+	return false
+}
+
 func unmarshalRound(w *run.W, tt [2]reflect.Type, r *rand.Rand, round uint64) {
+	if classicCannotDecodeKey(tt[0], map[reflect.Type]bool{}) {
+		w.Count("domain_marshal_only_types_pointer_map_key", 1)
+		marshalRound(w, tt, r, r.Uint64())
+		return
+	}
 	in := finishInput(r, genInput(r, tt[0], "", 0))
 	c := &umCase{tt: tt}
 	if r.IntN(3) == 0 {
